@@ -76,3 +76,170 @@ vk_harness!(c12_var_clear, {
     vk_cover!(true, "reach: var clear");
     core::mem::forget(v);
 });
+
+// ---------------------------------------------------------------------------------------------------------------
+// C06: typing of reads and stores, array bounds
+
+fn zero_of_kind(v: &Val) -> u8 {
+    match v {
+        Val::Integer(0) => 0,
+        Val::Single(x) if *x == 0.0 => 1,
+        Val::Double(x) if *x == 0.0 => 2,
+        Val::String(s) if s.is_empty() => 3,
+        _ => 9,
+    }
+}
+
+//@ prop: C06
+//@ tier: quick
+//@ unwind: 28
+//@ encodes: Var::fetch (unassigned variable: suffix, then first-letter DEFtype)
+//@ bounds: arbitrary DEFtype table (4^26); names A A% A! A# A$ Z Z1 QX$ (concrete), store empty
+vk_harness!(c06_unassigned_reads_zero_of_own_type, {
+    let mut v = Var::new();
+    havoc_types(&mut v);
+    let ta = v.types[0].clone();
+    let tz = v.types[25].clone();
+    let kind = |t: &VarType| match t {
+        VarType::Integer => 0u8,
+        VarType::Single => 1,
+        VarType::Double => 2,
+        VarType::String => 3,
+    };
+    vk_check!(zero_of_kind(&v.fetch(&"A%".into())) == 0, "C06: an unassigned % variable reads as Integer 0");
+    vk_check!(zero_of_kind(&v.fetch(&"A!".into())) == 1, "C06: an unassigned ! variable reads as Single 0");
+    vk_check!(zero_of_kind(&v.fetch(&"A#".into())) == 2, "C06: an unassigned # variable reads as Double 0");
+    vk_check!(zero_of_kind(&v.fetch(&"QX$".into())) == 3, "C06: an unassigned $ variable reads as the empty string");
+    vk_check!(zero_of_kind(&v.fetch(&"A".into())) == kind(&ta), "C06: an unsuffixed variable has the DEFtype of its first letter");
+    vk_check!(zero_of_kind(&v.fetch(&"Z1".into())) == kind(&tz), "C06: an unsuffixed variable has the DEFtype of its first letter (Z)");
+    vk_cover!(kind(&tz) == 3, "reach: Z is a string letter");
+    core::mem::forget(v);
+});
+
+//@ prop: C06 C02
+//@ tier: quick
+//@ unwind: 28
+//@ encodes: Var::store; Var::insert_integer / insert_single / insert_double / insert_string; Var::update_val; i16::try_from(Val)
+//@ bounds: target variable one of A% A! A# A$ B (B with any DEFtype); stored value any Integer / Single / Double (all bit patterns) or the string "S"; store empty before
+vk_harness!(c06_store_converts_to_the_variables_type, {
+    let mut v = Var::new();
+    let tb = vk::any_below(4);
+    set_type(&mut v, 1, tb);
+    let which = vk::any_below(5);
+    let name: Rc<str> = match which {
+        0 => "A%".into(),
+        1 => "A!".into(),
+        2 => "A#".into(),
+        3 => "A$".into(),
+        _ => "B".into(),
+    };
+    let target = if which < 4 { which } else { [0u8, 1, 2, 3][tb as usize] }; // 0 int, 1 single, 2 double, 3 string
+    let vk_ = vk::any_below(4);
+    let value = match vk_ {
+        0 => Val::Integer(vk::any_i16()),
+        1 => Val::Single(vk::any_f32()),
+        2 => Val::Double(vk::any_f64()),
+        _ => Val::String("S".into()),
+    };
+    let is_zero = match &value {
+        Val::Integer(n) => *n == 0,
+        Val::Single(x) => *x == 0.0,
+        Val::Double(x) => *x == 0.0,
+        _ => false,
+    };
+    let got = v.store(&name, value);
+    let stored = v.vars.get(&name).cloned();
+    vk_cover!(got.is_err(), "reach: store refused");
+    match got {
+        Ok(()) => {
+            vk_check!((vk_ == 3) == (target == 3), "C06: a number cannot be stored in a string variable nor a string in a numeric one");
+            match stored {
+                Some(Val::Integer(_)) => vk_check!(target == 0, "C06: a variable never holds a value of another type"),
+                Some(Val::Single(_)) => vk_check!(target == 1, "C06: a variable never holds a value of another type"),
+                Some(Val::Double(_)) => vk_check!(target == 2, "C06: a variable never holds a value of another type"),
+                Some(Val::String(_)) => vk_check!(target == 3, "C06: a variable never holds a value of another type"),
+                Some(_) => vk_check!(false, "C06: a control frame was stored in a variable"),
+                None => {} // zero / empty values are not stored (they read back as the default)
+            }
+            if target != 3 && is_zero {
+                vk_check!(v.vars.len() == 0, "C18: storing zero frees the slot");
+            }
+        }
+        Err(e) => {
+            let c = ec::code_of(&e);
+            vk_check!(c == ec::TYPE_MISMATCH || c == ec::OVERFLOW, "C06: assignment fails only with TYPE MISMATCH or OVERFLOW");
+            if c == ec::TYPE_MISMATCH {
+                vk_check!((vk_ == 3) != (target == 3), "C06: TYPE MISMATCH only between string and numeric");
+            }
+            if c == ec::OVERFLOW {
+                vk_check!(target == 0 && (vk_ == 1 || vk_ == 2), "C06: OVERFLOW only when a floating value does not fit an Integer variable");
+            }
+            vk_check!(stored.is_none(), "C06: a failed assignment stores nothing");
+        }
+    }
+    vk_cover!(which == 4 && tb == 3 && vk_ == 3, "reach: string into DEFSTR variable");
+    core::mem::forget(v);
+});
+
+fn array_access(v: &mut Var, r0: i16, r1: i16) -> Result<Val> {
+    let mut arr: Stack<Val> = Stack::new("X");
+    arr.push(Val::Integer(r0)).unwrap();
+    arr.push(Val::Integer(r1)).unwrap();
+    v.fetch_array(&"A".into(), arr)
+}
+
+//@ prop: C06
+//@ tier: quick
+//@ unwind: 28
+//@ encodes: Var::fetch_array; Var::build_array_key (bounds check per dimension); Var::vec_val_to_vec_i16
+//@ bounds: 2-dimensional array A with bounds d0, d1 in 0..=9 (declared); subscripts r0, r1 any i16
+vk_harness!(c06_two_dimensional_bounds, {
+    let mut v = Var::new();
+    let (d0, d1) = (vk::any_below(10) as i16, vk::any_below(10) as i16);
+    let mut dims: Vec<i16> = Vec::new();
+    dims.push(d0);
+    dims.push(d1);
+    v.dims.insert("A".into(), dims);
+    let (r0, r1) = (vk::any_i16(), vk::any_i16());
+    let got = array_access(&mut v, r0, r1);
+    let inside = r0 >= 0 && r1 >= 0 && r0 <= d0 && r1 <= d1;
+    match got {
+        Ok(val) => {
+            vk_check!(inside, "C06: an array accepts exactly the subscripts 0..bound in EACH declared dimension");
+            vk_check!(zero_of_kind(&val) == 1, "C06: an unassigned element reads as 0 of the array's type");
+        }
+        Err(e) => {
+            vk_check!(!inside, "C06: a subscript inside every bound was rejected");
+            vk_check!(ec::code_of(&e) == ec::SUBSCRIPT_OUT_OF_RANGE, "C06: a subscript outside its bound is SUBSCRIPT OUT OF RANGE");
+        }
+    }
+    vk_cover!(r0 < d0 && r0 >= 0 && r1 > d1, "reach: later subscript above its bound, earlier one below");
+    vk_cover!(inside, "reach: inside");
+    core::mem::forget(v);
+});
+
+//@ prop: C06
+//@ tier: quick
+//@ unwind: 28
+//@ encodes: Var::fetch_array / Var::build_array_key on an undeclared array (automatic bound 10); Var::dimension_array afterwards
+//@ bounds: undeclared 1-dimensional array; subscript any i16
+vk_harness!(c06_undeclared_array_has_bound_10, {
+    let mut v = Var::new();
+    let r0 = vk::any_i16();
+    let mut arr: Stack<Val> = Stack::new("X");
+    arr.push(Val::Integer(r0)).unwrap();
+    let got = v.fetch_array(&"A".into(), arr);
+    vk_check!(got.is_ok() == (r0 >= 0 && r0 <= 10), "C06: an array used undeclared accepts exactly 0..=10");
+    if r0 >= 0 {
+        // the implicit dimensioning counts: DIM afterwards is a redimension
+        let mut d: Stack<Val> = Stack::new("X");
+        d.push(Val::Integer(5)).unwrap();
+        match v.dimension_array(&"A".into(), d) {
+            Err(e) => vk_check!(ec::code_of(&e) == 10, "C06: an array cannot be dimensioned twice (REDIMENSIONED ARRAY)"),
+            Ok(()) => vk_check!(false, "C06: an array was dimensioned twice"),
+        }
+    }
+    vk_cover!(r0 == 10, "reach: last valid subscript");
+    vk_cover!(r0 == 11, "reach: first invalid subscript");
+    core::mem::forget(v);
+});
